@@ -387,11 +387,11 @@ def plan(tier, seed, jobs):
             specs.append({"kind": "holds", "n": 60, "seed": seed, "j": j, "budget_s": 50})
     else:
         for j in range(jobs * 4):
-            specs.append({"kind": "enum", "maxlen": 5, "stride": jobs * 4, "offset": j, "budget_s": 1500})
+            specs.append({"kind": "enum", "maxlen": 5, "stride": jobs * 4, "offset": j, "budget_s": 400})
         for j in range(jobs * 2):
-            specs.append({"kind": "random", "n": 20000, "seed": seed, "j": j, "budget_s": 900})
+            specs.append({"kind": "random", "n": 20000, "seed": seed, "j": j, "budget_s": 200})
         for j in range(jobs * 2):
-            specs.append({"kind": "holds", "n": 1500, "seed": seed, "j": j, "budget_s": 900})
+            specs.append({"kind": "holds", "n": 1500, "seed": seed, "j": j, "budget_s": 250})
     return specs
 
 
